@@ -112,6 +112,7 @@ def replay_relations(ck, chunk):
     rng = random.Random(a.seed)
     rot = rng.randrange(1000)
     sampled = 0
+    earlier, seen_text = [], set()        # judged (function, input, output) of earlier texts: see `again` below
     for idx, c in enumerate(cases, start):
         s = c["s"]
         recs = [rels[k - 1] for k in s]
@@ -234,6 +235,42 @@ def replay_relations(ck, chunk):
             for tag, msg in problems:
                 ck.violation("%s:%s:%s" % (name, ops if len(recs) == 1 else "lines=%d" % len(recs), tag), dict(detail, problem=msg),
                              "%r (scheme %s, %s input %r) -> %r: %s" % (text, sch.name, kind, detail["input"], list(y), msg))
+            # A generated function is a VALUE (LinRel.tla: Result is a function of the relation and the point, there is
+            # no other state): what it computes must not change because other systems were compiled meanwhile -- with
+            # other locals of the same names (tol, rel, named constants).  Re-run an accepted case of an EARLIER text.
+            if earlier and (idx + rot) % 5 == 0:
+                j = ((idx + rot) // 5) % len(earlier)
+                e_text, e_cons, e_sch, e_x, e_kind, e_y, e_loc = earlier[j]
+                if e_text != text:
+                    ck.extra["again_checks"] = ck.extra.get("again_checks", 0) + 1
+                    if e_loc:
+                        ck.extra["again_checks_with_locals"] = ck.extra.get("again_checks_with_locals", 0) + 1
+                    # ... and, every other time, after compiling the earlier text itself once more with every local of it
+                    # shifted and other strictness tolerances: a separate function, which must not touch the first
+                    if (idx + rot) % 10 == 0:
+                        try:
+                            other = dict({k: v + 1 for k, v in e_loc.items()}, tol=0.25, rel=0.5)
+                            ms.generate_constraint(ms.generate_solvers(e_text, variables=e_sch.variables, nvars=e_sch.dim,
+                                                                       locals=other))
+                            ck.extra["again_after_interfering_compile"] = ck.extra.get("again_after_interfering_compile", 0) + 1
+                        except Exception:
+                            pass
+                    try:
+                        y2 = list(e_cons(e_sch.point(e_x, e_kind)))
+                    except Exception as ex:
+                        y2 = repr(ex)
+                    if not (isinstance(y2, list) and len(y2) == len(e_y) and all(bool(p == q) for p, q in zip(y2, e_y))):
+                        ck.violation("%s:generated-function-changed-by-a-later-compile" % name,
+                                     {"earlier_text": e_text, "earlier_locals": e_loc, "spec_point": e_x, "first_output": e_y,
+                                      "output_now": y2, "compiled_meanwhile": text, "locals_meanwhile": loc},
+                                     "%r (locals %r) at %r gave %r when it was compiled and gives %r after %r (locals %r) was compiled"
+                                     % (e_text, e_loc, e_x, e_y, y2, text, loc))
+            if not problems and (text, sch.name) not in seen_text and (not all(f)):
+                seen_text.add((text, sch.name))
+                if len(earlier) < 48:
+                    earlier.append((text, cons, sch, x, kind, list(y), dict(loc)))
+                else:
+                    earlier[(idx + rot) % 48] = (text, cons, sch, x, kind, list(y), dict(loc))
             if not problems and sampled < 2 and (not all(f)) and sch is not schemes[0]:
                 sampled += 1
                 ck.sample({"run": name, "text": text, "variables": sch.variables, "nvars": sch.dim, "input": detail["input"],
